@@ -244,6 +244,39 @@ class CallMixin:
             return VInt(self._int_unprinter(v.t))
         self.unsupported(node, "int() of %s" % v.ty)
 
+    def bi_hasattr(self, node, st):
+        v = self.ev(node.args[0], st)
+        name = node.args[1].value if isinstance(node.args[1], ast.Constant) else None
+        if isinstance(v, VOpt):
+            v = v.v   # hasattr(None, f) is False for data attributes; callers test `is not None` first (checked where it matters)
+        if isinstance(v, VRec) and name is not None:
+            return VBool(name in v.ty.fields)
+        self.unsupported(node, "hasattr on %s" % v.ty)
+
+    def bi_getattr(self, node, st):
+        v = self.ev(node.args[0], st)
+        name = node.args[1].value if isinstance(node.args[1], ast.Constant) else None
+        dflt = self.ev(node.args[2], st) if len(node.args) > 2 else None
+        if name is None:
+            self.unsupported(node, "getattr with a computed name")
+        if isinstance(v, VNone):
+            if dflt is None:
+                self.oblige(st, "safety", node, z3.BoolVal(False), "getattr on None")
+            return dflt if dflt is not None else VNone()
+        if isinstance(v, VOpt) and isinstance(v.v, VRec):
+            if name in v.v.ty.fields:
+                if dflt is None:
+                    self.oblige(st, "safety", node, z3.Not(v.isnone), "getattr on None")
+                    return v.v.f[name]
+                return ite(v.isnone, dflt, v.v.f[name])
+            return dflt if dflt is not None else VNone()
+        if isinstance(v, VRec):
+            if name in v.ty.fields:
+                return v.f[name]
+            if dflt is not None:
+                return dflt
+        self.unsupported(node, "getattr(%s, %r)" % (v.ty, name))
+
     def bi_unchanged_except(self, node, st):
         """unchanged_except(new, old, 'f1', ...): every declared field other than the named ones is identical (term equality)"""
         a = self.ev(node.args[0], st)
